@@ -1,8 +1,283 @@
 import HapVerif.Model.C03
 import HapVerif.Drv.Common
-namespace HapVerif.C03
-open HapVerif.Drv
+/-!
+Driver of C03 (and the op-text parser shared with C15 / C06).
 
-def handle (_args : List String) (_impl : String) : Verdict := bad "C03-not-implemented"
+Case line: `C03 world <op> <op> ... => <routes> <servers>` where the ops are the one-token texts of
+`harness/world/ops.go` (one batch, fresh controller) plus pseudo ops `opt~db=ns/name`
+(`--default-backend-service`) and `opt~xns=1` (cross-namespace certificates);
+`routes` = `proto://host/path>backend,...`, `servers` = `backend=ip:port:w+...,...` (w = weight, 0 = drain).
+-/
+namespace HapVerif.Sync.Parse
+open HapVerif.Sync
+open HapVerif.C04 (Str MT)
+
+def unq (s : Str) : Str := if s = ['_'] then [] else s
+
+def splitKey (s : Str) : Str × Str :=
+  match splitOnC '/' s with
+  | [n] => ([], n)
+  | ns :: rest => (ns, "/".toList.intercalate rest)
+  | [] => ([], [])
+
+/-- split at the first occurrence of a character -/
+def split1 (c : Char) (s : Str) : Str × Option Str :=
+  let a := s.takeWhile (· ≠ c)
+  if a.length = s.length then (s, none) else (a, some (s.drop (a.length + 1)))
+
+def parseKV (s : Str) : List (Str × Str) :=
+  if s = ['-'] ∨ s.isEmpty then [] else
+  (splitOnC ';' s).filterMap fun kv =>
+    match split1 '=' kv with
+    | (k, some v) => some (k, unq v)
+    | _ => none
+
+def parsePType (s : Str) : PType :=
+  if s = "Exact".toList then .exact else if s = "Prefix".toList then .pfx else .impl
+
+def parsePath (s : Str) : PathSpec :=
+  let f := splitOnC ':' s
+  let g (i : Nat) : Str := f.getD i ['_']
+  ⟨unq (g 0), parsePType (unq (g 1)), g 2, unq (g 3)⟩
+
+structure RawIng where
+  ing : Ingress
+  classAnn : Option Str
+  className : Option Str
+
+def parseOpt (s : Str) : Option Str := if s = ['-'] then none else some (unq s)
+
+def lookupKV (l : List (Str × Str)) (k : String) : Option Str := (l.find? (·.1 = k.toList)).map (·.2)
+
+def lowerS (s : Str) : Str := C04.lower s
+
+def parseIngress (text : Str) : Option RawIng :=
+  match splitOnC '!' text with
+  | [f0, f1, f2, f3, f4, f5] =>
+    let (nn, ts) := split1 '@' f0
+    let (ns, name) := splitKey nn
+    let created := match ts with | some t => atoi t | none => 0
+    let (ca, cn) := split1 ',' f1
+    let ann := parseKV f2
+    let rules : List RuleSpec :=
+      if f3 = ['-'] then [] else
+      (splitOnC ';' f3).map fun r =>
+        let (h, ps) := split1 '>' r
+        ⟨unq h, match ps with
+          | some p => if p.isEmpty then [] else (splitOnC '+' p).map parsePath
+          | none => []⟩
+    let tls : List TLSSpec :=
+      if f4 = ['-'] then [] else
+      (splitOnC ';' f4).map fun t =>
+        let (hs, sec) := split1 '>' t
+        ⟨if hs.isEmpty then [] else (splitOnC '+' hs).map unq, match sec with | some s => unq s | none => []⟩
+    let dflt : Option (Str × Str) :=
+      if f5 = ['-'] then none else
+      let (s, p) := split1 ':' f5
+      some (s, match p with | some p => unq p | none => [])
+    some { ing := { ns, name, created, valid := false,
+                    pathType := match lookupKV ann "path-type" with | some v => lowerS v | none => [],
+                    ann := ann.filter (·.1 ≠ "path-type".toList), rules, tls, dflt },
+           classAnn := parseOpt ca, className := cn.bind parseOpt }
+  | _ => none
+
+def parsePorts (s : Str) : List SvcPort :=
+  if s = ['-'] then [] else
+  (splitOnC '+' s).filterMap fun p =>
+    match splitOnC ':' p with
+    | [n, num, t] => some ⟨unq n, atoi num, t⟩
+    | _ => none
+
+def parseAddrs (s : Str) : List Addr :=
+  if s = ['-'] then [] else
+  (splitOnC '+' s).filterMap fun a =>
+    match splitOnC ':' a with
+    | [ip, r, pod] => some ⟨ip, r = ['r'], unq pod⟩
+    | _ => none
+
+/-- driver state: the world, the IngressClass objects, the class fields of the ingresses -/
+structure St where
+  w : World := {}
+  classes : List (Str × Str) := []
+  raw : List ((Str × Str) × (Option Str × Option Str)) := []
+
+def ourController : Str := "haproxy-ingress.github.io/controller".toList
+def ourClass : Str := "haproxy".toList
+
+/-- `IsValidIngress` with the default options of the harness (`--ingress-class=haproxy`, no
+watch-without-class, no class precedence) -/
+def classValid (classes : List (Str × Str)) (ann cn : Option Str) : Bool :=
+  match ann with
+  | some a => a = ourClass
+  | none =>
+    match cn with
+    | some c => (classes.find? (·.1 = c)).any (·.2 = ourController)
+    | none => false
+
+def stripPrefix (p : String) (s : Str) : Option Str :=
+  if p.toList.isPrefixOf s then some (s.drop p.length) else none
+
+def step (st : St) (tok : Str) : Option St :=
+  let putIng (t : Str) : Option St := do
+    let r ← parseIngress t
+    let key := (r.ing.ns, r.ing.name)
+    pure { st with w := st.w.apply (.ingPut r.ing),
+                   raw := (key, (r.classAnn, r.className)) :: st.raw.filter (·.1 ≠ key) }
+  if let some t := stripPrefix "ing+" tok then putIng t
+  else if let some t := stripPrefix "ing~" tok then putIng t
+  else if let some t := stripPrefix "ing-" tok then
+    let (ns, n) := splitKey t
+    some { st with w := st.w.apply (.ingDel ns n) }
+  else if let some t := (stripPrefix "svc+" tok).orElse (fun _ => stripPrefix "svc~" tok) then
+    match splitOnC '!' t with
+    | [k, ps, _] => let (ns, n) := splitKey k; some { st with w := st.w.apply (.svcPut ⟨ns, n, parsePorts ps⟩) }
+    | _ => none
+  else if let some t := stripPrefix "svc-" tok then
+    let (ns, n) := splitKey t
+    some { st with w := st.w.apply (.svcDel ns n) }
+  else if let some t := stripPrefix "ep~" tok then
+    match splitOnC '!' t with
+    | [k, as] => let (ns, n) := splitKey k; some { st with w := st.w.apply (.epPut ns n (parseAddrs as)) }
+    | _ => none
+  else if let some t := stripPrefix "ep-" tok then
+    let (ns, n) := splitKey t
+    some { st with w := st.w.apply (.epDel ns n) }
+  else if let some t := (stripPrefix "sec+" tok).orElse (fun _ => stripPrefix "sec~" tok) then
+    match splitOnC '!' t with
+    | [k, kind, v, _] =>
+      let (ns, n) := splitKey k
+      some { st with w := st.w.apply (.secPut ⟨ns, n, kind = "tls".toList, atoi v⟩) }
+    | _ => none
+  else if let some t := stripPrefix "sec-" tok then
+    let (ns, n) := splitKey t
+    some { st with w := st.w.apply (.secDel ns n) }
+  else if let some t := stripPrefix "cls+" tok then
+    match split1 ':' t with
+    | (n, some c) => some { st with classes := (n, c) :: st.classes.filter (·.1 ≠ n) }
+    | _ => none
+  else if let some t := stripPrefix "cls-" tok then
+    some { st with classes := st.classes.filter (·.1 ≠ t) }
+  else if let some t := stripPrefix "cm~" tok then
+    let kv := parseKV t
+    some { st with w := st.w.apply (.setDrain (lookupKV kv "drain-support" = some "true".toList)) }
+  else if let some t := stripPrefix "pod+" tok then
+    match splitOnC '!' t with
+    | [k, ip, labels, term] =>
+      let (ns, n) := splitKey k
+      let app := (lookupKV (parseKV labels) "app").getD []
+      some { st with w := st.w.apply (.podPut ⟨ns, n, ip, app, term = ['t']⟩) }
+    | _ => none
+  else if let some t := stripPrefix "pod-" tok then
+    let (ns, n) := splitKey t
+    some { st with w := st.w.apply (.podDel ns n) }
+  else if let some t := stripPrefix "opt~db=" tok then
+    some { st with w := { st.w with opts := { st.w.opts with defaultBackend := some (splitKey t) } } }
+  else if tok = "opt~xns=1".toList then
+    some { st with w := { st.w with opts := { st.w.opts with crossNsSecret := true } } }
+  else if tok = "sync".toList then some st
+  else none
+
+/-- the final cluster state of a list of op texts, class validity resolved at the end -/
+def worldOf (toks : List String) : Option World := do
+  let st ← toks.foldlM (fun st t => step st t.toList) ({} : St)
+  let valid (i : Ingress) : Bool :=
+    match st.raw.find? (·.1 = (i.ns, i.name)) with
+    | some (_, (a, c)) => classValid st.classes a c
+    | none => false
+  pure { st.w with ings := st.w.ings.map fun i => { i with valid := valid i } }
+
+end HapVerif.Sync.Parse
+
+namespace HapVerif.C03
+open HapVerif.Drv HapVerif.Sync HapVerif.Sync.Parse
+open HapVerif.C04 (Str)
+
+def str (s : Str) : String := String.ofList s
+
+def perms {α} : List α → List (List α)
+  | [] => [[]]
+  | x :: xs => (perms xs).flatMap fun p => (List.range (p.length + 1)).map fun i => p.take i ++ x :: p.drop i
+
+/-- `proto://host/path>backend` -/
+def parseRoute (s : Str) : Option (Req × Str) :=
+  match split1 '>' s with
+  | (lhs, some ans) =>
+    let (tls, rest) :=
+      if "https://".toList.isPrefixOf lhs then (true, lhs.drop 8) else (false, lhs.drop 7)
+    let host := rest.takeWhile (· ≠ '/')
+    some (⟨tls, host, rest.drop host.length⟩, ans)
+  | _ => none
+
+def parseServer (s : Str) : Option Server :=
+  match splitOnC ':' s with
+  | [ip, p, w] => some ⟨ip, atoi p, atoi w⟩
+  | _ => none
+
+def parseBackend (s : Str) : Option (Str × List Server) :=
+  match split1 '=' s with
+  | (id, some l) => if l.isEmpty then some (id, []) else ((splitOnC '+' l).mapM parseServer).map (id, ·)
+  | _ => none
+
+def parseItems {α} (f : Str → Option α) (s : String) : Option (List α) :=
+  if s = "-" ∨ s = "" then some [] else (splitOnC ',' s.toList).mapM f
+
+def strLt (a b : Str) : Bool := C04.ltStr a b
+
+def showServers (l : List Server) : String :=
+  "+".intercalate ((sortBy strLt (l.map fun s => s.ip ++ ':' :: itoa s.port ++ ':' :: itoa s.weight)).map str)
+
+def showBackends (bs : List (Str × List Server)) : String :=
+  if bs.isEmpty then "-" else
+  ",".intercalate ((sortBy (fun (a b : Str × String) => strLt a.1 b.1)
+    (bs.map fun b => (b.1, str b.1 ++ "=" ++ showServers b.2))).map (·.2))
+
+def showReq (r : Req) : String := (if r.tls then "https://" else "http://") ++ str r.host ++ str r.path
+
+def showRoutes (rs : List (Req × Str)) : String :=
+  if rs.isEmpty then "-" else ",".intercalate (rs.map fun (r, a) => showReq r ++ ">" ++ str a)
+
+/-- the model's routes for the given requests, for an iteration order that reproduces the
+implementation's answers if there is one (Go map iteration is arbitrary), per frontend -/
+def modelRoutes (c : Cfg) (reqs : List (Req × Str)) : List (Req × Str) × Bool :=
+  let dfl := mapFiles (dfltPaths c) (hostsOfPaths (dfltPaths c))
+  let side (tls : Bool) : List (Req × Str) × Bool :=
+    let rs := reqs.filter (·.1.tls = tls)
+    let l := if tls then httpsPaths c else httpPaths c
+    let cands := (perms (hostsOfPaths l)).take 720
+    let run (π : List Str) : List (Req × Str) :=
+      let fs := mapFiles l π
+      let m : Maps := if tls then ⟨[], fs, dfl⟩ else ⟨fs, [], dfl⟩
+      rs.map fun (r, _) => (r, routeM c m r)
+    match cands.find? (fun π => run π = rs) with
+    | some π => (run π, true)
+    | none => (run (hostsOfPaths l), false)
+  let (a, oka) := side false
+  let (b, okb) := side true
+  (a ++ b, oka && okb)
+
+def handleWorld (toks : List String) (impl : String) : Verdict :=
+  match worldOf toks with
+  | none => bad "parse-ops"
+  | some w =>
+    match words impl with
+    | [rs, bs] =>
+      match parseItems parseRoute rs, parseItems parseBackend bs with
+      | some routes, some backends =>
+        let c := fullSync w
+        let (mr, okr) := modelRoutes c routes
+        let mb := c.backends.map fun b => (b.key.id, b.servers)
+        let okb := showBackends mb = showBackends backends
+        let routesSorted := (routes.filter (!·.1.tls)) ++ routes.filter (·.1.tls)
+        { model := showRoutes mr ++ " " ++ showBackends mb,
+          agree := okr && okb && showRoutes mr = showRoutes routesSorted,
+          oracle := oracle w routes backends,
+          trivial := c.paths.isEmpty }
+      | _, _ => bad "parse-impl"
+    | _ => bad "parse-impl-fields"
+
+def handle (args : List String) (impl : String) : Verdict :=
+  match args with
+  | "world" :: toks => if impl = "SKIP" then { model := "skip", agree := true, oracle := none, trivial := true } else handleWorld toks impl
+  | _ => bad "C03"
 
 end HapVerif.C03
